@@ -45,6 +45,11 @@ CLAIMED["C10"] = ("lockset / guarded-by analysis with call-site discharge of hel
          "go/ssa model; sync.RWMutex is not re-entrant (Go spec); lock identity by SSA provenance (same node = same resolved value); loops unrolled",
          "DESIGN.md §3 C10")
 
+CLAIMED["C03"] = ("predicated path enumeration (E4), append-ownership / slice-aliasing analysis (E9), writes-through-parameter scan (E5c), arm-by-arm soundness analysis of value.Equal (E7+E4)",
+         "Static, all-paths: every accepted tree write is announced with the leaf it produced; withheld iff (exists, non-atomic, value-equal, emulation on) and the store still happens; returned leaf = written leaf; caller's notification only touched by the nil/restore pair with restore on every exit; no retained append on a foreign/forked base in cache/path/ctree/value (the rule that found and now guards the fixed toDeleteNotification aliasing defect); multi notifications: updates before deletes, each on a clone; value.Equal never returns true for different values (per arm, incl. leaf-list length boundaries); Reset/Remove announce their deletes. Necessary conditions of replay equivalence; the equivalence over histories is not decided.",
+         "go/ssa model; calls through interfaces/function values and library calls assumed not to retain slice arguments (listed in evidence); proto.Clone deep-copies; loops unrolled",
+         "DESIGN.md §3 C03")
+
 NA_REASON = {}
 DEFAULT_NA = "check not built yet in this round (static rules designed in DESIGN.md section 3); not claimed until the rule runs"
 
